@@ -290,7 +290,15 @@ func c15Gen(seed int, illegal int) *c15Graph {
 		if len(m.globals) > 0 && r.Intn(3) == 0 {
 			gn := m.globals[r.Intn(len(m.globals))]
 			name := "mk" + gn + m.name
-			if _, dup := main.imported(name); !dup {
+			// a global that another module imports is never mutated (the two backends differ in
+			// whether an imported global is a copy or a reference; that is not this property's business)
+			readElsewhere := false
+			for _, o := range g.mods {
+				if from, ok := o.imported(gn); ok && from == m.name {
+					readElsewhere = true
+				}
+			}
+			if _, dup := main.imported(name); !dup && !readElsewhere {
 				m.factories = append(m.factories, gn)
 				main.addImport(m.name, name)
 				late = append(late, "closure:"+m.name+":"+gn)
@@ -329,6 +337,14 @@ func c15Gen(seed int, illegal int) *c15Graph {
 		}
 		for _, f := range main.fns {
 			g.mainBody = append(g.mainBody, "call:"+f.name)
+		}
+	}
+	// imported functions used as values, and locals that shadow nothing they should
+	for _, from := range main.impOrder {
+		for _, it := range main.imports[from] {
+			if g.mod(from).fn(it) != nil && r.Intn(3) == 0 {
+				late = append(late, "fnvalue:"+it)
+			}
 		}
 	}
 	g.mainBody = append(g.mainBody, late...)
@@ -497,6 +513,8 @@ func (g *c15Graph) sources() Program {
 					fmt.Fprintf(&b, "    println(\"main sees imported\", \"%s\", %s);\n", arg, arg)
 				case "print-own":
 					fmt.Fprintf(&b, "    println(\"main own\", \"%s\", %s);\n", arg, arg)
+				case "fnvalue":
+					fmt.Fprintf(&b, "    let fv%s = %s;\n    fv%s();\n    let lst%s = [%s];\n    for fn_item in lst%s { fn_item(); }\n", arg, arg, arg, arg, arg, arg)
 				case "closure":
 					mod, gn, _ := strings.Cut(arg, ":")
 					fmt.Fprintf(&b, "    let c%s%s = mk%s%s();\n    println(\"closure\", \"%s.%s\", c%s%s());\n    println(\"closure\", \"%s.%s\", c%s%s());\n", gn, mod, gn, mod, mod, gn, gn, mod, mod, gn, gn, mod)
@@ -565,6 +583,9 @@ func (g *c15Graph) expected() []string {
 			out = append(out, fmt.Sprintf("main sees imported %s %s", arg, vals[from+"."+arg]))
 		case "print-own":
 			out = append(out, fmt.Sprintf("main own %s %s", arg, vals["main."+arg]))
+		case "fnvalue":
+			call(main, arg, 0)
+			call(main, arg, 0)
 		case "closure":
 			mod, gn, _ := strings.Cut(arg, ":")
 			for k := 0; k < 2; k++ {
